@@ -26,6 +26,30 @@ class C14(Prop):
     search_budget = {"quick": 800, "thorough": 6000}
 
     def gen(self, rng, i, tier):
+        if i % 6 == 4:
+            # "all mixing matrices": a hand-made matrix per topology over a few excess tuples, not necessarily symmetric, with
+            # any subset of the ordered pairs stored (one entry per unordered pair, a missing diagonal, one-sided zeros dropped)
+            T = rng.randint(1, 3)
+            names = rng.sample(NAMES, T)
+            ejks = []
+            for nm in names:
+                tuples = set()
+                while len(tuples) < rng.randint(2, 4):
+                    tuples.add(tuple(rng.randint(0, 3) for _ in range(T)))
+                tuples = sorted(tuples)
+                pairs = [(a, b) for a in tuples for b in tuples]
+                style = rng.choice(["full", "upper", "random"])
+                if style == "upper":
+                    pairs = [(a, b) for a, b in pairs if a <= b and (a != b or rng.random() < 0.5)]
+                elif style == "random":
+                    pairs = [pr for pr in pairs if rng.random() < 0.6] or pairs[:1]
+                rng.shuffle(pairs)
+                w = [Fraction(rng.randint(1, 9), rng.choice([1, 2, 3])) for _ in pairs]
+                if rng.random() < 0.7:
+                    z = sum(w)
+                    w = [x / z for x in w]
+                ejks.append([nm, [[list(a + b), rs(x)] for (a, b), x in zip(pairs, w)]])
+            return {"kind": "matrix", "names": names, "ejks": ejks, "reverse_dict": rng.random() < 0.5}
         if rng.random() < 0.6:
             T = rng.randint(1, 4)
             nk = rng.randint(2, 9)
@@ -102,6 +126,18 @@ class C14(Prop):
                 obs["inverted"] = "NoCommonKey"
             obs["jdd_untouched"] = jdd == {tuple(k): Ex(v) for k, v in case["jdd"]}
             return obs
+        if case["kind"] == "matrix":
+            names = case["names"]
+            d = {nm: {tuple(k): Ex(v) for k, v in rows} for nm, rows in case["ejks"]}
+            if case.get("reverse_dict"):
+                d = dict(reversed(list(d.items())))
+            M = JointExcessJointDegreeMatrices({TN.EJKS: d, TN.EDGE_NAMES: list(names)})
+            obs = {"split_keys": [[nm, sorted(list(k) for k in M.excess_degree_keys[nm])] for nm in names]}
+            qks = JointExcessFromEjk.get_excess_joint_distributions(M)
+            obs["row_sums"] = [[nm, tab(qks[nm])] for nm in names]
+            obs["matrix_untouched"] = {nm: sorted([list(k), rs(v)] for k, v in M.ejks[nm].items()) for nm in names} == \
+                {nm: sorted([list(k), rs(Fraction(v))] for k, v in rows) for nm, rows in case["ejks"]}
+            return obs
         # network case
         G = netgen.build_graph(case)
         names = case["names"]
@@ -135,6 +171,11 @@ class C14(Prop):
             if isinstance(obs.get("excess"), list) and obs.get("common") is not None:
                 reqs.append({"op": "c14", "kind": "invert", "names": case["names"], "common": obs["common"],
                              "qks": [[nm, q] for nm, q in zip(case["names"], obs["excess"])]})
+        elif case["kind"] == "matrix":
+            for nm, rows in case["ejks"]:
+                reqs.append({"op": "c14", "kind": "split_keys", "ejk": sorted([list(k), rs(Fraction(v))] for k, v in rows)})
+            reqs.append({"op": "c14", "kind": "excess_from_ejk", "keys": obs["split_keys"],
+                         "ejks": [[nm, sorted([list(k), rs(Fraction(v))] for k, v in rows)] for nm, rows in case["ejks"]]})
         else:
             reqs.append({"op": "c14", "kind": "jdd_from_network", "jds": [row for _, row in case["jd"]]})
             for i, nm in enumerate(case["names"]):
@@ -155,6 +196,9 @@ class C14(Prop):
                 m["inverted"] = sorted(reps[2]["table"]) if "table" in reps[2] else "raises"
             return m
         T = len(case["names"])
+        if case["kind"] == "matrix":
+            return {"split_keys": [[nm, sorted(r["keys"])] for nm, r in zip(case["names"], reps[:T])],
+                    "row_sums": [[nm, sorted(t)] for nm, t in reps[T]["qks"]] if "qks" in reps[T] else "raises"}
         m = {"jdd_from_network": sorted(reps[0]["table"]),
              "split_keys": [[nm, sorted(r["keys"])] for nm, r in zip(case["names"], reps[1:1 + T])],
              "row_sums": [[nm, sorted(t)] for nm, t in reps[1 + T]["qks"]] if "qks" in reps[1 + T] else "raises"}
@@ -168,6 +212,8 @@ class C14(Prop):
             if isinstance(obs.get("excess"), list) and obs.get("common") is not None:
                 p["inverted"] = obs["inverted"] if isinstance(obs["inverted"], list) else "raises"
             return p
+        if case["kind"] == "matrix":
+            return {"split_keys": obs["split_keys"], "row_sums": obs["row_sums"]}
         return {"jdd_from_network": obs["jdd_from_network"], "split_keys": obs["split_keys"], "row_sums": obs["row_sums"]}
 
     # ------------------------------------------------------------------ oracle
@@ -208,6 +254,23 @@ class C14(Prop):
             if not obs.get("jdd_untouched", True):
                 f.append("input-mutated")
             return f
+        if case["kind"] == "matrix":
+            T = len(case["names"])
+            for nm, rows in case["ejks"]:
+                M = {tuple(k): Fraction(v) for k, v in rows}
+                want = {}
+                for k, v in M.items():
+                    want[k[:T]] = want.get(k[:T], 0) + v
+                got = {tuple(k): Fraction(v) for k, v in dict((a, b) for a, b in obs["row_sums"])[nm]}
+                if got != want:
+                    f.append(f"row-sums: summing the hand-made matrix of {nm!r} over its second index gives {sorted(want.items())}, "
+                             f"the code returns {sorted(got.items())}")
+                halves = {k[:T] for k in M} | {k[T:] for k in M}
+                if {tuple(k) for k in dict((a, b) for a, b in obs["split_keys"])[nm]} != halves:
+                    f.append("key-halves")
+            if not obs.get("matrix_untouched", True):
+                f.append("input-mutated")
+            return f
         # network
         names = case["names"]
         T = len(names)
@@ -245,6 +308,8 @@ class C14(Prop):
     def nontrivial(self, case, obs):
         if "exc" in obs:
             return False
+        if case["kind"] == "matrix":
+            return sum(len(rows) for _, rows in case["ejks"]) >= 3
         return len(case["jdd"]) >= 3 if case["kind"] == "jdd" else len(case["edges"]) >= 3
 
     def stats(self, case, obs, hist):
@@ -255,6 +320,8 @@ class C14(Prop):
                 hist["P0_positive"] = hist.get("P0_positive", 0) + 1
             if "exc" not in obs and isinstance(obs.get("inverted"), list):
                 hist["inverted_ok"] = hist.get("inverted_ok", 0) + 1
+        elif case["kind"] == "matrix":
+            pass
         elif case.get("clean"):
             hist["clean_generated_network"] = hist.get("clean_generated_network", 0) + 1
 
@@ -263,6 +330,11 @@ class C14(Prop):
             for i in range(len(case["jdd"])):
                 if len(case["jdd"]) > 2:
                     c = json.loads(json.dumps(case)); del c["jdd"][i]; yield c
+        elif case["kind"] == "matrix":
+            for t, (nm, rows) in enumerate(case["ejks"]):
+                for i in range(len(rows)):
+                    if len(rows) > 1:
+                        c = json.loads(json.dumps(case)); del c["ejks"][t][1][i]; yield c
         else:
             for i in range(len(case["edges"])):
                 if len(case["edges"]) > 1 and not case.get("clean"):
